@@ -7,8 +7,8 @@ ever appends to its log: after a checkpoint (a flush of all dirty pages and the 
 holds every earlier record, and start-up recovery replays the whole log on the data file.  Here:
 
 * `foldl_max_le`: the LSN counter after a replay of records that are not ahead of it is unchanged.
-* `replay_clean_hdr`: `replay_clean` for a log whose LSNs the counter has already passed: the header
-  is exactly the header before.
+* `replay_clean_hdr`: `replay_clean` for a log whose LSNs the counter has already passed (and whose
+  INSERT keys the row-id counter has): the header is exactly the header before.
 * `crash_recovery_ckpt_gen`: the log `old ++ new` - `old` fully applied (`Applied`) on the store `r0`
   the replay starts from, `new` written by a `SpecRun` from `db0` - is replayed on `r0`, any store with
   the catalog description of `db0.store`: first `old` changes nothing visible, then `new` is redone.
@@ -43,12 +43,14 @@ theorem foldl_max_mem (log : List WalRec) (m : Nat) : ∀ r ∈ log, r.lsn ≤ l
     · exact Nat.le_trans (Nat.le_max_right _ _) (foldl_max_ge rest _)
     · exact ih _ r hr
 
-/-- **Replay of an applied log the LSN counter has passed**: no visible change, and the header is
-the header before - the store differs from the one before at most in what the cache holds. -/
+/-- **Replay of an applied log both counters have passed** (the LSN counter every LSN, the row-id
+counter every INSERT key): no visible change, and the header is the header before - the store
+differs from the one before at most in what the cache holds. -/
 theorem replay_clean_hdr (log : List WalRec) (s : Store) (pt sch : Levels) (tbls : List (Bytes × Levels))
-    (h : Cat s pt sch tbls) (hall : ∀ r ∈ log, Applied tbls s r) (hlsn : ∀ r ∈ log, r.lsn ≤ s.hdr.nextLSN) :
+    (h : Cat s pt sch tbls) (hall : ∀ r ∈ log, Applied tbls s r) (hlsn : ∀ r ∈ log, r.lsn ≤ s.hdr.nextLSN)
+    (hkeys : ∀ r ∈ log, r.op = c_OpInsert → r.cell ≤ s.hdr.lastKey) :
     ∃ s', replayAll log s = (s', none, false) ∧ view s' = view s ∧ Cat s' pt sch tbls ∧ s'.hdr = s.hdr := by
-  obtain ⟨s', e, v, c, hh⟩ := replay_clean log s pt sch tbls h hall
+  obtain ⟨s', e, v, c, hh⟩ := replay_clean log s pt sch tbls h hall hkeys
   refine ⟨s', e, v, c, ?_⟩
   rw [hh, foldl_max_le log _ hlsn]
 
@@ -57,7 +59,8 @@ log `db0.wal` (the records of everything that happened before the checkpoint); t
 are run by the engine from `db0` and end in `dbN`, whose log is `db0.wal` followed by their records.
 The whole log `dbN.wal` is replayed on a store `r0` that satisfies the catalog description of
 `db0.store` (`r0 = db0.store`, or the re-opened data file), on which every old record is already
-applied and whose LSN counter no old record is ahead of.  The replay succeeds and the resulting store
+applied and whose counters no old record is ahead of (the LSN counter of no LSN, the row-id counter
+of no INSERT key).  The replay succeeds and the resulting store
 abstracts to the plain-model state of all acknowledged statements, as the live final store does. -/
 theorem crash_recovery_ckpt_gen (sch : Levels) {db0 dbN : Engine.DB} {sdb0 sdbN : Spec.SDB} {stmts : List EStmt}
     (run : SpecRun sch db0 sdb0 stmts dbN sdbN)
@@ -66,7 +69,8 @@ theorem crash_recovery_ckpt_gen (sch : Levels) {db0 dbN : Engine.DB} {sdb0 sdbN 
     (r0 : Store) (hr0 : Cat r0 pt sch tbls)
     (hnf : r0.hdr.nextFree = db0.store.hdr.nextFree) (hlk : r0.hdr.lastKey = db0.store.hdr.lastKey)
     (hl : r0.hdr.nextLSN ≤ db0.store.hdr.nextLSN)
-    (hold : ∀ r ∈ db0.wal, Applied tbls r0 r) (hlsn : ∀ r ∈ db0.wal, r.lsn ≤ r0.hdr.nextLSN) :
+    (hold : ∀ r ∈ db0.wal, Applied tbls r0 r) (hlsn : ∀ r ∈ db0.wal, r.lsn ≤ r0.hdr.nextLSN)
+    (hkeys : ∀ r ∈ db0.wal, r.op = c_OpInsert → r.cell ≤ r0.hdr.lastKey) :
     ∃ ptN tblsN rN, replayAll dbN.wal r0 = (rN, none, false) ∧
       AbsV dbN.store ptN sch tblsN sdbN ∧ AbsV rN ptN sch tblsN sdbN ∧
       (∀ x ∈ catTrees ptN sch tblsN, ∀ o ∈ offs x, view rN o = view dbN.store o) ∧
@@ -74,7 +78,7 @@ theorem crash_recovery_ckpt_gen (sch : Levels) {db0 dbN : Engine.DB} {sdb0 sdbN 
       rN.hdr.ptRoot = dbN.store.hdr.ptRoot ∧ rN.hdr.nextLSN ≤ dbN.store.hdr.nextLSN := by
   obtain ⟨_, tblsN, stmtsM, logs, hrun, hw, ⟨sdbF, habsF, hvF⟩⟩ := spec_run_live sch run pt tbls hA
   obtain ⟨_, habs0, _⟩ := hA
-  obtain ⟨r1, e1, _, hc1, hh1⟩ := replay_clean_hdr db0.wal r0 pt sch tbls hr0 hold hlsn
+  obtain ⟨r1, e1, _, hc1, hh1⟩ := replay_clean_hdr db0.wal r0 pt sch tbls hr0 hold hlsn hkeys
   obtain ⟨ptN, rN, e, c1, c2, _, _, a1, a2, a4⟩ := replay_history_mixed_gen sch hrun pt r1 habs0.cat hc1 hself hf
     (by rw [hh1]; exact hnf) (by rw [hh1]; exact hlk) (by rw [hh1]; exact hl)
   refine ⟨ptN, tblsN, rN, ?_, ⟨sdbF, ⟨c1, habsF.tabs⟩, hvF⟩, ⟨sdbF, ⟨c2, habsF.tabs⟩, hvF⟩,
@@ -86,7 +90,10 @@ theorem crash_recovery_ckpt_gen (sch : Levels) {db0 dbN : Engine.DB} {sdb0 sdbN 
 plain-model state of all acknowledged statements - with a log that was never truncated.**  As
 `crash_recovery_spec`, but the log of `db0` need not be empty: it may hold any records that are
 already applied on `db0.store` (`Applied`: the page of the record carries an LSN at least the
-record's, or the record is the INSERT of a key its table holds) and that the LSN counter has passed.
+record's, or the record is the INSERT of a key its table holds) and that the counters have passed:
+no LSN is beyond the LSN counter, no INSERT key beyond the row-id counter (`hkeys`; recovery raises the
+row-id counter to the key of every INSERT record, skipped or not, so an old record with a key beyond
+the counter would leave the replayed counter ahead of the live one).
 The whole log of `dbN` - the old records, then the records of the statements - is replayed on the
 store the statements started from. -/
 theorem crash_recovery_ckpt (sch : Levels) {db0 dbN : Engine.DB} {sdb0 sdbN : Spec.SDB} {stmts : List EStmt}
@@ -94,7 +101,8 @@ theorem crash_recovery_ckpt (sch : Levels) {db0 dbN : Engine.DB} {sdb0 sdbN : Sp
     (pt : Levels) (tbls : List (Bytes × Levels)) (hA : AbsV db0.store pt sch tbls sdb0)
     (hself : PtSelf pt) (hf : FreshM db0.store tbls)
     (hold : ∀ r ∈ db0.wal, Applied tbls db0.store r)
-    (hlsn : ∀ r ∈ db0.wal, r.lsn ≤ db0.store.hdr.nextLSN) :
+    (hlsn : ∀ r ∈ db0.wal, r.lsn ≤ db0.store.hdr.nextLSN)
+    (hkeys : ∀ r ∈ db0.wal, r.op = c_OpInsert → r.cell ≤ db0.store.hdr.lastKey) :
     ∃ ptN tblsN rN, replayAll dbN.wal db0.store = (rN, none, false) ∧
       AbsV dbN.store ptN sch tblsN sdbN ∧ AbsV rN ptN sch tblsN sdbN ∧
       (∀ x ∈ catTrees ptN sch tblsN, ∀ o ∈ offs x, view rN o = view dbN.store o) ∧
@@ -102,7 +110,7 @@ theorem crash_recovery_ckpt (sch : Levels) {db0 dbN : Engine.DB} {sdb0 sdbN : Sp
       rN.hdr.ptRoot = dbN.store.hdr.ptRoot ∧ rN.hdr.nextLSN ≤ dbN.store.hdr.nextLSN := by
   obtain ⟨sdbA, habs0, hv0⟩ := hA
   exact crash_recovery_ckpt_gen sch run pt tbls ⟨sdbA, habs0, hv0⟩ hself hf db0.store habs0.cat rfl rfl
-    (Nat.le_refl _) hold hlsn
+    (Nat.le_refl _) hold hlsn hkeys
 
 /-- `crash_recovery_spec` is the case of an empty old log -/
 theorem crash_recovery_spec' (sch : Levels) {db0 dbN : Engine.DB} {sdb0 sdbN : Spec.SDB} {stmts : List EStmt}
@@ -113,6 +121,7 @@ theorem crash_recovery_spec' (sch : Levels) {db0 dbN : Engine.DB} {sdb0 sdbN : S
       AbsV dbN.store ptN sch tblsN sdbN ∧ AbsV rN ptN sch tblsN sdbN :=
   let ⟨ptN, tblsN, rN, e, a, b, _⟩ := crash_recovery_ckpt sch run pt tbls hA hself hf
     (by rw [hwal]; intro r hr; cases hr) (by rw [hwal]; intro r hr; cases hr)
+    (by rw [hwal]; intro r hr; cases hr)
   ⟨ptN, tblsN, rN, e, a, b⟩
 
 end Mkdb.Store
